@@ -524,6 +524,17 @@ def run(ctx):
                             ctx.count("entry pairs agreeing on a value (spelling given as a str subclass)")
             n_str_sub += 1
             for cat in cat_list:
+                # between two old spellings of one unit ('1000ft3/d' and 'k(ft3)/d'): no conversion at all, as between the current
+                # spelling and itself
+                for sib in [l_ for l_, c_ in spell.items() if c_ == cur and l_ != leg][:2]:
+                    for vname, val in (("float", 3.1415), ("int", 7), ("list", [3.1415, 7])):
+                        ctx.ev()
+                        got_ = outcome(lambda: db.Convert(qt, leg, sib, val))
+                        want_ = outcome(lambda: db.Convert(qt, cur, cur, val))
+                        if got_ != want_:
+                            ctx.violation("conversion-between-two-legacy-spellings-of-one-unit-is-not-the-identity", {"legacy": leg, "other_legacy": sib, "current": cur, "value": vname, "got": got_, "identity": want_}, replay={"legacy": leg, "current": cur})
+                        else:
+                            ctx.count("conversions between two legacy spellings of one unit")
                 for name, fn in entries(db, qt, cat, base if base != cur else other, other, cur):
                     ctx.ev()
                     n_entries += 1
